@@ -1,0 +1,10 @@
+//go:build verif
+// +build verif
+
+package expiration
+
+// Constructors for both List implementations. Compiled only with the "verif"
+// build tag.
+
+func VerifNewPQList() List   { return newPQList() }
+func VerifNewSkipList() List { return newSkipList() }
